@@ -3,6 +3,7 @@
 package server
 
 import (
+	"github.com/oxia-db/oxia/common/rpc"
 	"github.com/oxia-db/oxia/server/kv"
 	"github.com/oxia-db/oxia/server/wal"
 )
@@ -16,3 +17,9 @@ func VerifLeaderTracker(l LeaderController) QuorumAckTracker {
 }
 func VerifFollowerWal(f FollowerController) wal.Wal { return f.(*followerController).wal }
 func VerifFollowerDB(f FollowerController) kv.DB    { return f.(*followerController).db }
+
+// VerifReplicationProvider is the real replication RPC provider (the code that attaches namespace, shard and
+// term to the streams a leader opens) over a client pool supplied by the harness.
+func VerifReplicationProvider(pool rpc.ClientPool) ReplicationRpcProvider {
+	return &replicationRpcProvider{pool: pool}
+}
